@@ -236,7 +236,7 @@ pub fn on_call(call: Call, layout_size: usize, layout_align: usize) -> Result<()
                 layout_size, layout_align, e.elem_size, e.elem_align
             ));
         }
-        if matches!(call, Call::Expand | Call::ExpandExact | Call::Resize) && e.fail_at != 0 && e.c.calls() == e.fail_at {
+        if matches!(call, Call::Expand | Call::ExpandExact | Call::Resize) && e.fail_at != 0 && e.c.calls() >= e.fail_at && !std::thread::panicking() {
             e.fail_at = 0;
             e.c.injected_failures += 1;
             return Err(());
